@@ -181,6 +181,14 @@ func (g *ProgGen) Int() string {
 	case 11:
 		return g.Int() + Pick(g.r, []string{" && ", " || "}) + g.Int()
 	case 12:
+		if g.r.Chance(1, 3) {
+			// decision table, possibly nested in its last alternative, possibly ending in a catch-all
+			inner := g.Int() + " ? " + g.Int() + ", " + Pick(g.r, []string{"1", "true", g.Int()}) + " ? " + g.Int()
+			if g.r.Bool() {
+				return "(" + g.Int() + " ? " + g.Int() + ", " + g.Int() + " ? (" + inner + "))"
+			}
+			return "(" + inner + ")"
+		}
 		return g.Int() + " ? " + g.Int() + " : " + g.Int()
 	case 13:
 		return "-" + g.intLeaf()
